@@ -608,3 +608,34 @@ theorem exec_good (flows : List (String × FlowDef)) : ∀ (fuel : Nat) (s : St)
                         exact g3.trans (exec_good flows fuel _ u rest w g3.2.1 hw (Nat.lt_of_lt_of_le hlt g3.2.2))
 
 end NemoVerif.Bind
+
+namespace NemoVerif.Bind.Heap
+open NemoVerif
+
+theorem cell_updCell_ne (a b : Nat) (v : Val) (h : b ≠ a) : ∀ hp : List (Nat × List Val), cell b (updCell a v hp) = cell b hp
+  | [] => rfl
+  | (a', l) :: r => by
+    by_cases h1 : a' = a
+    · subst h1
+      simp [updCell, cell, Ne.symm h, cell_updCell_ne a' b v h r]
+    · by_cases h2 : a' = b
+      · subst h2
+        simp [updCell, cell, h]
+      · simp [updCell, cell, h1, h2, cell_updCell_ne a b v h r]
+
+
+/-- without sharing, an in-place append in `(u, x)` is invisible through any other variable `(w, y)` -/
+theorem read_appendInPlace_of_no_sharing (s : HSt) (u w : Nat) (x y : String) (v : Val)
+    (h : addrOf w y s.vars ≠ addrOf u x s.vars) : read (appendInPlace s u x v) w y = read s w y := by
+  unfold appendInPlace read
+  cases hu : addrOf u x s.vars with
+  | none => rfl
+  | some a =>
+    simp only
+    cases hw : addrOf w y s.vars with
+    | none => rfl
+    | some b =>
+      simp only
+      exact cell_updCell_ne a b v (by intro e; apply h; rw [hu, hw, e]) _
+
+end NemoVerif.Bind.Heap
